@@ -246,7 +246,10 @@ pub fn run(ctx: &Ctx) -> (Outcome, String, Option<bool>) {
     {
         // liquidity lifecycles (C16's plan shape under C15's pool-heavy profile): several swaps from both sides, several
         // deposits and withdrawals per pool per block - judged by this check's conservation oracle
-        let p4 = super::c15::profile2();
+        let mut p4 = super::c15::profile2();
+        // canonical spellings only: a block with oddly spelled requests widens the peg allowance of MEL and SYM to 2 % of
+        // the reserve, which would hide small over-payments on the built-in pools
+        p4.p_odd_spelling = 0;
         let prof4 = p4.clone();
         out.absorb(crate::runner::run_sharded(
             ctx,
@@ -272,5 +275,5 @@ pub fn replay(case: &serde_json::Value) -> Check {
     if case.get("deposits").is_some() {
         return super::c16::replay(case);
     }
-    super::hist::replay_any(case, &profile(), &super::c15::profile2(), C01::default())
+    super::hist::replay_any(case, &profile(), &{ let mut p = super::c15::profile2(); p.p_odd_spelling = 0; p }, C01::default())
 }
